@@ -130,6 +130,57 @@ def run(ck: Check) -> None:
         ck.oracle_checks += 1
         if r.impl != "B " + b.hex():
             ck.violation("signing an already signed repodata file again (possibly re-laid-out in between) does not give the same canonical file", {"doc": proto.enc(c.args[0])[:600]}, "signrepo-idempotent")
+    # large sections: artifact counts at which batching / paging / progress logic rolls over (gen.counts_of_interest, incl. the constants of the current source)
+    # — every listed artifact gets its entry.  Implementation vs independent signer (the model's statement, sigSection_keys, is for every count).
+    import os
+    d_ = impl.scratch_dir()
+    sk = gen.key(2)
+    def check_signed_file(fn, original, label):
+        try:
+            with impl.quiet_stdout():
+                impl.signing.sign_all_in_repodata(fn, sk.seed.hex())
+            b = open(fn, "rb").read()
+            out = json.loads(b)
+        except Exception as e:  # noqa: BLE001
+            ck.violation("signing a well-formed repodata document failed", {"document": label, "error": repr(e)[:300]}, "signrepo-failed:" + label.split(":")[0])
+            return
+        ck.evaluations += 1
+        ck.oracle_checks += 1
+        metas = {**original["packages"], **original.get("packages.conda", {})}
+        sigs = out.get("signatures") or {}
+        missing = [nm for nm in metas if nm not in sigs]
+        wrong = [nm for nm in metas if nm in sigs and sigs[nm] != {sk.hex: gen.raw_entry(sk, gen.oracle_bytes(metas[nm]))}]
+        extra = [nm for nm in sigs if nm not in metas]
+        rest_out = {k2: v for k2, v in out.items() if k2 != "signatures"}
+        rest_in = {k2: v for k2, v in original.items() if k2 != "signatures"}
+        if missing or wrong or extra:
+            ck.violation("signatures section is not exactly one valid entry per artifact under the signer's key, each over that artifact's own metadata",
+                         {"document": label, "artifacts": len(metas), "missing": missing[:5], "wrong": wrong[:5], "unlisted": extra[:5]}, "signrepo-entries:" + label.split(":")[0])
+        elif not proto.deep_equal(rest_in, rest_out):
+            ck.violation("signing changed something other than the signatures section", {"document": label}, "signrepo-other-fields:" + label.split(":")[0])
+        elif b != gen.oracle_bytes(out):
+            ck.violation("signed repodata file is not in canonical form", {"document": label}, "signrepo-noncanonical:" + label.split(":")[0])
+    for cnt in gen.counts_of_interest():
+        for section in ("packages", "packages.conda"):
+            if cnt > 2100 and section == "packages.conda" and not ck.thorough:
+                continue
+            doc = {"info": {}, "packages": {}, "packages.conda": {}}
+            doc[section] = {"a%05d%s" % (j, ".conda" if section.endswith("conda") else ".tar.bz2"): {"name": "a", "build_number": j} for j in range(cnt)}
+            doc["packages" if section != "packages" else "packages.conda"] = {"other-1.0-0.x": {"name": "other"}}
+            fn = os.path.join(d_, "large.json")
+            with open(fn, "w", encoding="ascii") as f:
+                json.dump(doc, f)
+            ck.count("large-section:%s" % section)
+            check_signed_file(fn, doc, "large:%s:%d" % (section, cnt))
+    # files as other tools store them: raw UTF-8 with multi-byte characters lying across every block boundary a piecewise reader could use
+    span = min(2_500_000, max([200_000] + [3 * n_ for n_ in gen.sizes_of_interest()]))
+    for pad in (0, 1, 2):
+        raw, doc = gen.raw_utf8_repodata(pad, span)
+        fn = os.path.join(d_, "rawutf8.json")
+        with open(fn, "wb") as f:
+            f.write(raw)
+        ck.count("raw-utf8-file")
+        check_signed_file(fn, doc, "raw-utf8:pad%d:%d-bytes" % (pad, len(raw)))
     # malformed documents / keys: same outcome class as the model, and an argument error where the structure is not a repodata document
     bad = [Case("signrepofile", [x, gen.key(1).seed.hex()], tag="bad-doc") for x in [{}, {"signatures": {}}, [], ["packages"], "packages", 5, None, {"packages.conda": {}}]]
     bad += [Case("signrepofile", [{"packages": {}}, x], tag="bad-key") for x in ["", "ab", "AB" * 32, "ab" * 31, " " + "ab" * 32, None, 5, gen.key(1).seed]]
